@@ -32,21 +32,24 @@ def valid_addr(a):
     return n <= 4
 
 
-def template(ids, cost):
-    key = (tuple(ids), cost)
+def template(ids, cost, no_children=()):
+    key = (tuple(ids), cost, tuple(no_children))
     t = _templates.get(key)
     if t is None:
         specs = [{"key": "m", "cls": H.RF24Mesh, "node_id": 0, "name": "master"}]
         for k, i in enumerate(ids):
-            specs.append({"key": i, "cls": H.RF24Mesh if k % 2 else H.RF24MeshNoMaster, "node_id": i, "name": "id%d" % i})
+            specs.append({"key": i, "cls": H.RF24Mesh if k % 2 else H.RF24MeshNoMaster, "node_id": i, "name": "id%d" % i,
+                          "attrs": {"allow_children": False} if i in no_children else {}})
         t = N.Net(specs, cost_class=cost, horizon=60 * 1000 * MS)
+        for i in no_children:
+            t.nodes[i].queue.max_queue_size = 1  # (documented attribute) one slot: any junk frame would block a real message
         _templates[key] = t
     return t
 
 
 def run_case(case, chooser=None):
     ids = case["ids"]
-    net = copy.deepcopy(template(ids, case["cost"]))
+    net = copy.deepcopy(template(ids, case["cost"], case.get("no_children", ())))
     net.w.activate()
     H.reset_frame_ids()
     net.lat = N.LAT[case["lat"]]
@@ -114,7 +117,8 @@ def run_case(case, chooser=None):
             post(i, "check_connection")
             if len(ids) > 1:
                 msg = H.pattern(case.get("mlen", 5), case.get("seed", 0), 9)
-                p["send"] = (ids[-1], n.send(ids[-1], 5, msg), msg)
+                dest = ids[case.get("send_to", -1)]
+                p["send"] = (dest, n.send(dest, 5, msg), msg)
                 post(i, "send")
                 # one message at a time: let the (unacknowledged-type) message reach its
                 # destination before the next request enters the network
@@ -127,6 +131,14 @@ def run_case(case, chooser=None):
                 # the master must still answer afterwards
                 p["after_unknown"] = (n.lookup_address(i), table.get(i))
             net.serve(ctx, i, 30 * MS, hook)
+            if case.get("renew_connected", True):
+                # renew_address() on a node that is still connected (no release first)
+                t0 = w.now
+                a3 = n.renew_address(timeout)
+                p["renew_connected"] = (a3, w.now - t0, n.node_address)
+                post(i, "renew_address")
+                net.serve(ctx, i, 30 * MS, hook)
+                p["table_after_renew"] = dict(master.dhcp_dict)
             p["release"] = n.release_address()
             post(i, "release_address")
             p["addr_after_release"] = n.node_address
@@ -218,6 +230,13 @@ def judge(case, obs, pid=PID):
                       "lookup_node_id(%o) for an unassigned address returned %r, documented -2" % (UNASSIGNED_ADDR, p["unknown_addr"])))
         if "after_unknown" in p and p["after_unknown"][0] != p["after_unknown"][1]:
             v.append(("%s/master-disturbed" % pid, "after the unknown lookups lookup_address(own id) returned %r (table %r)" % p["after_unknown"]))
+        if "renew_connected" in p:
+            a3, dt, cur = p["renew_connected"]
+            others = {a for j, a in addrs.items() if j != me}
+            if a3 is None or not valid_addr(a3) or dt > timeout * 1e9 or cur != a3:
+                v.append(("%s/renew-while-connected:failed" % pid, "renew_address() on a connected node returned %r after %.0f ms (node_address %o)" % (a3, dt / 1e6, cur)))
+            elif a3 in others or p.get("table_after_renew", {}).get(me) != a3:
+                v.append(("%s/renew-while-connected:bad-address" % pid, "renewed as %o; other nodes %r; table %r" % (a3, sorted(others), p.get("table_after_renew"))))
         if "release" in p:
             if p["release"] is not True:
                 v.append(("%s/release:returned-%r" % (pid, p["release"]), "release_address() returned %r" % (p["release"],)))
@@ -250,6 +269,9 @@ def record(case, obs, rep, trace):
     rep.transitions += obs["npkts"]
     rep.part("mesh", executions=1, packets=obs["npkts"], collisions=obs["ncoll"], virtual_seconds=round(obs["virt_s"], 3))
     lv = sorted(N.level_of(a[0]) for a in obs["join"].values() if a[0])
+    junk = sum(len(q) for q in obs["queues"].values()) - (1 if obs["probe"].get("send") else 0)
+    if junk > 0:
+        rep.outcome("frames-other-than-the-message-in-application-queues")
     rep.outcome("k%d:joined=%d:levels=%s:faults=%d:exc=%d:probe=%s" % (len(case["ids"]), len(lv), "".join(map(str, lv)), obs["faults"], len(obs["exc"]),
                                                                    "y" if obs["probe"].get("rejoin") else "n"))
     rep.nt(repr((sorted(case.items(), key=str), [t[0] for t in trace])))
@@ -269,7 +291,9 @@ def w_cases(item, rep):
 
 def build_items(tier, seed):
     cases = []
-    idsets = {1: [(1,), (255,)], 2: [(1, 2), (77, 3)], 3: [(1, 2, 3), (9, 4, 250)]}
+    # (id sets include ones whose numeric value coincides with a level-1 address 1..5 that
+    # another node will be given: ids and addresses must never be confused)
+    idsets = {1: [(1,), (255,)], 2: [(1, 2), (77, 3), (4, 9), (5, 4)], 3: [(1, 2, 3), (9, 4, 250), (3, 5, 4)]}
     timing_all = [(c, l) for c in range(4) for l in (0, 1, 2)]
     kk = 0
     for k in (1, 2, 3):
@@ -297,6 +321,9 @@ def build_items(tier, seed):
     cases.append(dict(ids=[21, 22, 23, 24, 25, 26, 27], offsets=[j * 40 * MS for j in range(7)], cost=0, lat=1, seed=seed, mlen=24, tail=300))
     for oi, off in enumerate(itertools.permutations(range(4), 4)):
         cases.append(dict(ids=[11, 12, 13, 14], offsets=[OFFSETS[o] for o in off], cost=oi % 4, lat=(oi // 4) % 3, seed=seed, mlen=oi))
+    # a connected node that refuses children must stay silent (and clean) when others poll its level
+    cases.append(dict(ids=[21, 22, 23, 24, 25, 26, 27, 28], offsets=[j * 40 * MS for j in range(8)], cost=0, lat=0, seed=seed, mlen=7, tail=300,
+                      no_children=[22, 23], send_to=1))
     if tier == "thorough":
         cases.append(dict(ids=[7, 8, 9, 10, 11, 12], offsets=[j * 300 * US for j in range(6)], cost=2, lat=0, seed=seed, mlen=5, tail=300))
         cases.append(dict(ids=list(range(31, 43)), offsets=[j * 30 * MS for j in range(12)], cost=0, lat=0, seed=seed, mlen=5, tail=300))
